@@ -372,6 +372,12 @@ def check_stop(ctx):
             in_stop = any(e[0] == "exc" and e[1].type is not None and res.canon(e[1].type) == "builtins.StopIteration" for e in p.ev)
             nexts = [e for e in p.ev if e[0] == "partial" and "next(self._indices)" in A.src(e[1])]
             ex = r.exc.func if isinstance(r.exc, ast.Call) else r.exc
+            writes = [x for x in p.stmts() if isinstance(x, (ast.Assign, ast.AugAssign)) and any(
+                isinstance(t, ast.Attribute) and A.root_name(t) == "self" for t in A.assigned_targets(x))]
+            ctx.check("C17-c", not writes, r, "Slice.fill_into changes its state (`%s`) on the path that raises LenaStopFill: the stop is no "
+                      "longer final -- a caller that offers further values of the same flow gets values selected again after the slice "
+                      "has ended" % (A.short(writes[0], 50) if writes else ""), detail="LenaStopFill leaves the slice exhausted (no state written)",
+                      construct="stop-sticky", path=p)
             ctx.check("C17-c", in_stop and bool(nexts) and ex is not None and res.canon(ex) == EXC + "LenaStopFill" and not fills, r,
                       "Slice.fill_into raises `%s` outside the handler of the exhausted index iterator (or after filling): LenaStopFill "
                       "may only be raised when no later value could be selected" % A.short(r, 40),
@@ -519,6 +525,28 @@ def check_window(ctx):
     ], res=res)
     S = lambda node: A.src_with(node, nm)
     inv = {v: k for k, v in nm.items()}
+    # run() must not keep its window (or anything else) in the element: a run abandoned half-way would leave it there
+    selfw = []
+    for x in A.walk_local(fn):
+        if isinstance(x, (ast.Assign, ast.AugAssign)) and any(isinstance(t, (ast.Attribute, ast.Subscript)) and A.root_name(t) == "self"
+                                                                for t in A.assigned_targets(x)):
+            selfw.append(x)
+        elif isinstance(x, ast.Call) and isinstance(x.func, ast.Attribute) and x.func.attr in (
+                "append", "appendleft", "extend", "extendleft", "clear", "pop", "popleft", "insert", "remove", "rotate", "update", "add"):
+            recv = x.func.value
+            if A.root_name(recv) == "self":
+                selfw.append(x)
+            elif isinstance(recv, ast.Name):
+                d = A.single_def(fn, recv.id)
+                if d is not None and A.root_name(d) == "self" and isinstance(d, ast.Attribute):
+                    selfw.append(x)
+    for x in selfw[:1]:
+        ctx.violation("C17-e", x, "RunningChunkBy.run keeps state in the element (`%s`): the window of a run that the consumer abandons "
+                      "(a Slice downstream, close()) is still there when the element is run again, and two flows run through one "
+                      "element mix their windows" % A.short(x, 60), construct="window-in-element")
+    if selfw:
+        return
+    ctx.ok("C17-e", fn, "RunningChunkBy.run writes nothing through self")
     if not ctx.require("window" in inv, "C17-e", fn, "RunningChunkBy.run: the window deque was not found"):
         return
     wdef = [s for s in A.walk_local(fn) if isinstance(s, ast.Assign) and any(isinstance(t, ast.Name) and t.id == inv["window"] for t in s.targets)]
@@ -616,6 +644,8 @@ def check(ctx):
 ITF = "lena/flow/iterators.py"
 ELF = "lena/flow/elements.py"
 VARIANTS = [
+    M("stopfill-rewinds", ITF, "            except StopIteration:\n                raise lena.core.LenaStopFill()", "            except StopIteration:\n                self._indices = self._islice(itertools.count(0))\n                self._next_index = -1\n                self._index = 0\n                raise lena.core.LenaStopFill()", ["C17-c"]),
+    M("window-kept-in-element", ELF, "        chunk = collections.deque(itertools.islice(flow, chunk_size),\n                                  maxlen=chunk_size)", "        chunk = self._chunk\n        chunk.extend(itertools.islice(flow, chunk_size))", ["C17-e"]),
     M("skip-with-none-sentinel", ITF, "                for _ in zip(range(start), flow):\n                    pass", "                for _ in range(start):\n                    if next(flow, None) is None:\n                        return", ["C17-f"]),
     M("fillcompute-none-sentinel", "lena/core/adapters.py", "            try:\n                val = next(slice_)\n            except StopIteration:\n                # Unlike FillCompute, we don't yield anything\n                # if the flow was smaller than the required bufsize\n                break\n            else:\n                self._el_fill(val)\n                nfills += 1", "            val = next(slice_, None)\n            if val is None:\n                break\n            self._el_fill(val)\n            nfills += 1", ["C17-f"]),
     M("islice-args-reversed", ITF, "            self._islice = lambda iterable: islice(iterable, *args)", "            self._islice = lambda iterable: islice(iterable, *args[::-1])", ["C17-a"]),
